@@ -256,7 +256,10 @@ def r2(k: Kit) -> None:
             ('get_string', 'kdf_data'), ('get_uint32', 'nkeys'),
             ('get_string', '_'), ('get_string', 'key_data'),
             ('get_remaining_payload', 'mac')]
-    rep.check(seq[:7] == want, 'C15.R2', key(de, 'openssh container reader'),
+    # the name the envelope's public key blob is bound to is free (it was
+    # `_` while the blob was dropped, C15.R19 wants it compared)
+    got7 = [(a, '_' if i == 4 else t) for i, (a, t) in enumerate(seq[:7])]
+    rep.check(got7 == want, 'C15.R2', key(de, 'openssh container reader'),
               'reader consumes the container in the writer\'s order',
               f'OpenSSH private container is read as {seq[:7]}',
               de.loc(de.node))
@@ -1211,3 +1214,79 @@ def run(idx, rep, tier):
                   'comment is transformed on import - a non-UTF-8 comment '
                   'comes back as U+FFFD sequences and the re-exported file '
                   'shows a different comment to ssh-keygen', k.loc(_fo, _n))
+    rep.rule('C15.R18', 'EC explicit parameters (_ECKey._lookup_curve): the '
+             'Curve element is accepted with two or more members (a, b and '
+             'the OPTIONAL seed): a length test ">= 2" on it, no unpacking '
+             'into exactly three names - secp256k1 keys written with '
+             '-param_enc explicit carry no seed; and the RFC 4716 Comment '
+             'header is written from the stored comment unchanged (no '
+             'escaping: no reader unescapes)')
+    _flc = k.func('ecdsa._ECKey._lookup_curve')
+    _len2 = any(isinstance(x, ast.Compare) and is_call(x.left, 'len') and
+                isinstance(x.ops[0], ast.GtE) and isinstance(
+                    x.comparators[0], ast.Constant) and
+                x.comparators[0].value == 2 for x in ast.walk(_flc.node))
+    _unp3 = [x for x in ast.walk(_flc.node) if isinstance(x, ast.Tuple) and
+             isinstance(getattr(x, 'ctx', None), ast.Store) and any(
+                 isinstance(e, ast.Tuple) and len(e.elts) == 3
+                 for e in x.elts)]
+    rep.check(_len2 and not _unp3, 'C15.R18',
+              key(_flc, 'curve seed is optional'),
+              'len(curve) >= 2, no three-name unpacking',
+              'the explicit-parameter Curve must have exactly (a, b, seed): '
+              'EC private keys without the optional seed (every secp256k1 '
+              'key from openssl -param_enc explicit) are rejected with '
+              '"Invalid EC curve parameters"', _flc.loc(_flc.node))
+    _nc = 0
+    for _q in ('public_key.SSHKey.export_public_key',
+               'public_key.SSHCertificate.export_certificate'):
+        if not k.idx.has_func(_q):
+            continue
+        _fx = k.func(_q)
+        for _b in ast.walk(_fx.node):
+            if isinstance(_b, ast.BinOp) and isinstance(_b.op, ast.Add) and \
+                    isinstance(_b.left, ast.BinOp) and isinstance(
+                        _b.left.left, ast.Constant) and \
+                    _b.left.left.value == b'Comment: "':
+                _nc += 1
+                rep.check(dotted(_b.left.right) == 'self._comment', 'C15.R18',
+                          key(_fx, 'rfc4716 comment written as stored'),
+                          'b\'Comment: "\' + self._comment + b\'"\\n\'',
+                          f'`{norm(_b.left.right)}` is written instead of '
+                          'the stored comment', _fx.loc(_b))
+        for _c in ast.walk(_fx.node):
+            if is_call(_c, '_rfc4716_comment') or (
+                    is_call(_c, 'replace') and 'comment' in unparse(_c)):
+                rep.violation('C15.R18',
+                              key(_fx, 'rfc4716 comment written as stored'),
+                              f'`{norm(_c)[:60]}` rewrites the comment on '
+                              'export: John "JD" Doe comes back as John '
+                              '\\"JD\\" Doe and grows on every cycle',
+                              _fx.loc(_c))
+    if not any(o.rule == 'C15.R18' and o.status == 'violation'
+               for o in rep.obligations):
+        rep.floor('C15.R18', 'rfc4716 comment headers', _nc, 2)
+    rep.rule('C15.R19', '_decode_openssh_private: the public key blob in the '
+             'clear-text envelope of an OpenSSH private key file is '
+             'compared with the public half of the key decoded from the '
+             'private section before the key is returned - one file must '
+             'not yield two different public halves (import_private_key '
+             'gives A, import_public_key of the same file gives B; OpenSSH '
+             'and PyCA reject such a file)')
+    _fop = k.func('public_key._decode_openssh_private')
+    _gop = k.cfg(_fop)
+    _rets = [n for n in _gop.nodes if n.kind == 'return' and
+             n.ast.value is not None and dotted(n.ast.value) == 'key']
+    _cmp = [a.id for a in _gop.nodes if a.kind == 'atom' and isinstance(
+        a.ast, ast.Compare) and any(
+            isinstance(x, ast.Attribute) and x.attr == 'public_data'
+            for x in ast.walk(a.ast))]
+    rep.floor('C15.R19', 'returns of the decoded key', len(_rets), 1)
+    for _n in _rets:
+        _w = _gop.path(_gop.entry, _n.id, blocked_nodes=_cmp)
+        rep.check(bool(_cmp) and _w is None, 'C15.R19',
+                  key(_fop, 'envelope public key matches the private part'),
+                  'key.public_data compared with the envelope blob',
+                  'the envelope blob is read and dropped: replacing it with '
+                  'another key\'s public data gives a file whose private '
+                  'and public import disagree', k.loc(_fop, _n))
